@@ -31,6 +31,11 @@ import (
 //                            waiting for PReturn); an implementation that wakes only some of them (Signal for Broadcast)
 //                            leaves the others waiting for the finisher's broadcast, i.e. for the return of a work function
 //                            that may itself be waiting (ExclusiveRateLimit, or a function that waits for its callers)
+//   C10 misuse-no-panic      a call without a work function (nil value / no ExclusiveWork) or on a nil receiver did not panic.
+//                            Such misuse calls are sprinkled over the scripts (each in its own goroutine, under recover, on
+//                            idle keys, keys with work running, in the gap, inside a CallAfter wait); they are NOT calls of
+//                            the history, and a rejected call must leave nothing behind: all the monitors below (answered
+//                            within the deadline, residue, fresh-call) still have to hold for the ordinary calls of that key
 //   C10 resolve-not-called   nil result without errResolveNotCalled, or errResolveNotCalled with no matching execution
 //                            that returned without resolving after the call was made
 //   C10 fn-supplier          the executed function was executed twice, started before the call that supplied it, or its
@@ -198,7 +203,6 @@ type exEnv struct {
 	fidBase int
 	id      string
 	phases  int
-	failed  bool
 	gapSeen map[[2]int]bool // (call, fn): call was unanswered at a quiescent point where fn had resolved, return held
 	gapFns  map[int]bool    // functions for which such a quiescent point was observed
 	quiet   int             // tick at which every call had finished and the key map was checked (before the fresh calls)
@@ -212,7 +216,6 @@ func newExEnv(h *hctx, id string, nkeys int) *exEnv {
 }
 
 func (env *exEnv) monitor(prop, format string, args ...interface{}) {
-	env.failed = true
 	env.h.line("MONITOR %s %s case=%s", prop, fmt.Sprintf(format, args...), env.id)
 }
 
@@ -625,6 +628,50 @@ func (env *exEnv) quiesceCheck() bool {
 	return true
 }
 
+// ---- misuse calls ----------------------------------------------------------------------------------------------------
+
+const exNMisuse = 8
+
+var exMisuseName = [exNMisuse]string{"call_nil", "callasync_nil", "startafter_nil", "options_without_work", "callafter_nil", "start_nil",
+	"options_start_without_work", "nil_receiver"}
+
+// misuse makes one call that is documented to panic, in its own goroutine and under recover. It is not part of the
+// history. (The nil-receiver variant touches no state at all.)
+func (env *exEnv) misuse(variant, key int) {
+	k := env.keys[key]
+	res := make(chan bool, 1)
+	go func() {
+		defer func() { res <- recover() != nil }()
+		switch variant {
+		case 0:
+			_, _ = env.e.Call(k, nil)
+		case 1:
+			_ = env.e.CallAsync(k, nil)
+		case 2:
+			env.e.StartAfter(k, nil, time.Millisecond)
+		case 3:
+			_ = env.e.CallWithOptions(ExclusiveKey(k))
+		case 4:
+			_, _ = env.e.CallAfter(k, nil, 2*time.Millisecond)
+		case 5:
+			env.e.Start(k, nil)
+		case 6:
+			_ = env.e.CallWithOptions(ExclusiveStart(true), ExclusiveKey(k), ExclusiveWait(time.Millisecond))
+		default:
+			_, _ = (*Exclusive)(nil).Call(k, func() (interface{}, error) { return nil, nil })
+		}
+	}()
+	env.h.count("misuse_"+exMisuseName[variant], 1)
+	select {
+	case panicked := <-res:
+		if !panicked {
+			env.monitor("C10", "misuse-no-panic %s key=%d returned normally", exMisuseName[variant], key)
+		}
+	case <-time.After(exHangDeadline):
+		env.monitor("C10", "hang misuse %s key=%d neither returned nor panicked", exMisuseName[variant], key)
+	}
+}
+
 // ---- phases, as seen by the controller ------------------------------------------------------------------------------
 
 const (
@@ -877,6 +924,12 @@ func exK1Case(h *hctx, i int) {
 				continue
 			}
 		}
+		if rng.Intn(100) < 12 {
+			key := rng.Intn(nkeys)
+			_, name := env.phaseOf(key)
+			h.count("misuse_at_"+name, 1)
+			env.misuse(rng.Intn(exNMisuse), key)
+		}
 		hs := env.held()
 		r := rng.Intn(100)
 		switch {
@@ -909,6 +962,10 @@ func exK1Case(h *hctx, i int) {
 			if wait > 0 && rng.Intn(2) == 0 {
 				// stay inside the CallAfter window: no quiescence wait
 				time.Sleep(time.Duration(100+rng.Intn(400)) * time.Microsecond)
+				if rng.Intn(4) == 0 {
+					h.count("misuse_at_sleepwin", 1)
+					env.misuse(rng.Intn(exNMisuse), key)
+				}
 				continue
 			}
 		case r < 72:
@@ -952,6 +1009,9 @@ func exK2Case(h *hctx, i int) {
 		go func() {
 			defer wg.Done()
 			for m := 2 + rng.Intn(3); m > 0; m-- {
+				if rng.Intn(100) < 15 {
+					env.misuse(rng.Intn(exNMisuse), rng.Intn(nkeys))
+				}
 				style := exRandStyle(rng)
 				c := env.issue(style, rng.Intn(nkeys), exRandMode(rng, style), rng.Intn(4) == 0, false, exRandWait(rng, style, false),
 					time.Duration(rng.Intn(500))*time.Microsecond)
@@ -1019,6 +1079,7 @@ func exSweepVariants() []timedCase {
 			env.quiesceCheck() // resolved, return held: all three must have their outcome here
 			b := env.issue(exCall, 0, exModeValue, false, true, 0, 0)
 			gap(h)
+			env.misuse(h.rng.Intn(exNMisuse), 0)
 			env.issue(exStart, 0, exModeValue, false, false, 0, 0)
 			gap(h)
 			env.release(a.fn, true, true)
@@ -1033,6 +1094,7 @@ func exSweepVariants() []timedCase {
 		mk("after", func(h *hctx, env *exEnv, inject time.Duration) {
 			a := env.issue(exCallAfter, 0, exModeValue, false, true, 2*time.Millisecond, 0)
 			gap(h)
+			env.misuse(h.rng.Intn(exNMisuse), 0)
 			env.issue(exCallAsync, 0, exModeValue, false, false, 0, 0)
 			gap(h)
 			env.issue(exStartAfter, 0, exModeValue, false, false, time.Millisecond, 0)
